@@ -63,3 +63,41 @@ Theorem C01_eliminated_two_block :
     Rp (sol "U†" * sol "H" * sol "U") == 0.
 Proof. intros. eapply eliminated_tb; eassumption. Qed.
 Print Assumptions C01_eliminated_two_block.
+
+(** The wiring hypotheses hold for the concrete algebra of multi-index series of block matrices
+    with the diagonal solver ([inst_wiring], Alg/MainInst.v), so C01 applies to it: *)
+Require Import Morphisms.
+From PV.Series Require Import Inst SylvInst.
+From PV.Block Require Import Mat Masks.
+From PV.Alg Require Import MainInst MainWitness.
+
+Theorem C01_kept_series_instance :
+  forall (D k : nat) (R0 : Type) (r0 r1 : R0) (add mul sub : R0 -> R0 -> R0) (opp : R0 -> R0) (req : R0 -> R0 -> Prop)
+         (Ro : @Ring_ops R0 r0 r1 add mul sub opp req) (Rg : @Ring R0 r0 r1 add mul sub opp req Ro) (CS : CStar R0)
+         (blk : nat -> nat) (keep : nat -> nat -> bool) (cm : nat -> bool)
+         (keep_sym : forall p q, keep p q = keep q p) (keep_refl : forall p, keep p p = true)
+         (keep_blk : forall p q, keep p q = true -> blk p = blk q) (cm_blk : forall p q, blk p = blk q -> cm p = cm q)
+         (keep_eucl : keep_eucl_on D keep cm) (E : nat -> R0) (inv : R0 -> R0),
+    (forall p q, (p < D)%nat -> (q < D)%nat -> keep p q = false -> (E p - E q) * inv (E p - E q) == 1) ->
+    (forall p, conj (E p) == E p) -> Proper (_==_ ==> _==_) inv ->
+    (forall x, inv (- x) == - inv x) -> (forall x, conj (inv x) == inv (conj x)) ->
+    let BA := series_BlockAlg D k blk keep cm keep_sym keep_blk cm_blk in
+    forall (rflag : string -> T D k R0 -> T D k R0) (fenv : string -> list (T D k R0) -> T D k R0) (sol : string -> T D k R0),
+    (forall x, rflag "commuting_blocks" x == Rw x) ->
+    (forall y, fenv "solve_sylvester" (cons y nil) == SylvInst.sylv E inv y) ->
+    adj (sol "H") == sol "H" -> Zc (sol "H") == SylvInst.H0 D k E ->
+    solution (gflag_of false) rflag fenv sol main_alg ->
+    Sel (sol "U†" * sol "H" * sol "U") == sol "H_tilde".
+Proof.
+  intros D k R0 r0 r1 add mul sub opp req Ro Rg CS blk keep cm keep_sym keep_refl keep_blk cm_blk keep_eucl E inv
+         Hinv Hreal HinvP Hopp Hconj BA rflag fenv sol Hrf Hfe Hh Hz Hsol.
+  apply (@C01_kept (T D k R0) _ _ _ _ _ _ _ _ _ BA rflag fenv sol Hsol).
+  exact (@inst_wiring D k R0 _ _ _ _ _ _ _ _ Rg CS blk keep cm keep_sym keep_refl keep_blk cm_blk keep_eucl E inv
+           Hinv Hreal HinvP Hopp Hconj rflag fenv Hrf Hfe (sol "H") Hh Hz).
+Qed.
+Print Assumptions C01_kept_series_instance.
+
+(** Non-vacuity (Alg/MainWitness.v): a concrete valuation satisfying every equation of
+    [main_alg] up to total order 2, on which the two conclusions are confirmed by computation. *)
+Example C01_hypotheses_satisfiable : main_wit_check = true /\ main_wit_kept = true /\ main_wit_elim = true.
+Proof. exact main_witness. Qed.
